@@ -280,6 +280,13 @@ def deliver(chunks, form):
     if form == 'file':
         # a binary file object iterates by '\n'-terminated lines
         return io.BytesIO(b''.join(chunks))
+    if form == 'file-offset':
+        # a file object whose first line (front matter of the caller's own)
+        # has been read already: the program starts at the current position
+        fh = io.BytesIO(b'#!front matter, not part of the program "\n' +
+                        b''.join(chunks))
+        fh.readline()
+        return fh
     raise core.HarnessError(form)
 
 
@@ -307,7 +314,8 @@ def generate(rng, prop, tier, index):
                 'src': core.enc_bytes(src_),
                 'routes': ['p8file', 'p8include', 'p8include2',
                            'p8include-tab-then-all', 'p8include-after-failed',
-                           'p8include-carts-two-dirs', 'cli-listtokens']}
+                           'p8include-carts-two-dirs', 'cli-listtokens'] + (
+                    ['p8include-big-lua'] if index % 50 in (35, 45) else [])}
     if index % 25 == 7:
         sc['src'] = {'$corpus': index // 25}
     elif index % 10 == 3:
@@ -478,6 +486,29 @@ def execute_file(sc):
                     break
                 outcomes.append(route + ':same')
                 continue
+            elif route == 'p8include-big-lua':
+                # a library of more than 64 KiB (picotool warns about size
+                # only when it writes a cart) included as a .lua file
+                big = src + b''.join(b'bigfill_%d=%d\n' % (i, i)
+                                     for i in range(5200))
+                w.put('a/big.lua', big)
+                w.put('a/mainbig.p8', refcodec.encode_p8(refcodec.make_cart(
+                    version=33, code=b'#include big.lua\n')))
+                got = load('a/mainbig.p8')
+                ref = lex([big], 'lua')
+                core.bump(res['faults'], 'CHUNK')
+                core.bump(res['probes'], 'include-file-larger-than-64KiB')
+                if got != ref:
+                    core.violation(
+                        res, 'C07', 'C07:chunk-dependent-tokens',
+                        'C07|chunk-dependent|tokens|via big .lua include',
+                        'a %d-byte .lua file included from a cart: %s tokens '
+                        'against %s when the same text is lexed as one chunk'
+                        % (len(big), len(got[1]) if got[0] == 'ok' else got,
+                           len(ref[1]) if ref[0] == 'ok' else ref))
+                    break
+                outcomes.append(route + ':same')
+                continue
             elif route == 'p8include':
                 got = load('a/main.p8')
                 # an included cart's code is re-serialised by the echo writer
@@ -593,7 +624,7 @@ def execute(sc):
     ends = line_ends(src)
     core.bump(res['ops'], 'lex:' + api)
     deliveries = [('all', ends, 'list'), ('all', ends, 'file'),
-                  ('all', ends, 'gen')]
+                  ('all', ends, 'gen'), ('all', ends, 'file-offset')]
     if sc.get('cuts') is not None:
         deliveries = [('given', sc['cuts'], sc.get('form', 'list'))]
     else:
